@@ -11,6 +11,7 @@ import (
 	"regexp"
 	"strconv"
 	"strings"
+	"sync/atomic"
 	"time"
 
 	"mellium.im/xmpp/jid"
@@ -48,6 +49,9 @@ type run struct {
 	refused []bool // the last Leave of the channel was answered with an error
 	everJoined map[int]bool
 	feedCh  chan []byte
+	serveRet atomic.Value // string: how Serve ended (set before the event is emitted)
+	lastItem *sentItem    // the item of the last presence fed (what the callback must report)
+	lastHeld string       // last `=` token (addresses held, as Me() reports them)
 	blockedBy string // which parked call ("j0", "l1") keeps the serve loop blocked
 	blocked bool // serve loop blocked behind a parked Join (hand-off or unclosed error reply)
 	nsync   int
@@ -92,11 +96,12 @@ func newRun(r *common.Run, addrs []int) (*run, error) {
 	}
 	x.cl = &muc.Client{
 		HandleInvite:       func(muc.Invitation) { ctl.Emit("cb", "invite", nil) },
-		HandleUserPresence: func(stanza.Presence, muc.Item) { ctl.Emit("cb", "upres", nil) },
+		HandleUserPresence: func(_ stanza.Presence, it muc.Item) { ctl.Emit("cb", "upres", it) },
 	}
 	m := mux.New("jabber:client", muc.HandleClient(x.cl))
 	ctl.Go("serve", func() {
 		err := rs.S.Serve(m)
+		x.serveRet.Store(fmt.Sprint(err))
 		ctl.Emit("serve", "ret:"+fmt.Sprint(err), nil)
 	})
 	return x, nil
@@ -150,8 +155,23 @@ func (x *run) awaitPresence(to string, unavailable bool) string {
 
 // sync waits until the serve loop has finished everything fed so far.
 func (x *run) sync() {
+	if !x.syncQ() {
+		x.r.Fail("serve-continues", "serve-stalled", x.lines(), "the serve loop stopped processing stanzas"+x.served())
+	}
+}
+
+func (x *run) served() string {
+	if v, ok := x.serveRet.Load().(string); ok {
+		return " (Serve returned: " + v + ")"
+	}
+	return ""
+}
+
+// syncQ is sync without the oracle failure: false if the serve loop does not
+// answer (the caller says what that means).
+func (x *run) syncQ() bool {
 	if x.blocked || len(x.problems) > 0 {
-		return
+		return true
 	}
 	x.nsync++
 	id := fmt.Sprintf("sync%d", x.nsync)
@@ -160,12 +180,15 @@ func (x *run) sync() {
 	for time.Now().Before(deadline) {
 		out := string(x.rs.Out.Bytes())
 		if strings.Contains(out, `"`+id+`"`) || strings.Contains(out, `'`+id+`'`) {
-			return
+			return true
+		}
+		if x.serveRet.Load() != nil {
+			break // Serve has returned: nothing will answer
 		}
 		time.Sleep(50 * time.Microsecond)
 	}
-	x.problem("WATCHDOG: serve loop does not answer (stalled or dead)")
-	x.r.Fail("serve-continues", "serve-stalled", x.lines(), "the serve loop stopped processing stanzas")
+	x.problem("WATCHDOG: serve loop does not answer (stalled or dead)%s", x.served())
+	return false
 }
 
 func (x *run) callbacks() {
@@ -173,6 +196,11 @@ func (x *run) callbacks() {
 		switch {
 		case e.Who == "cb" && e.What == "upres":
 			x.upres++
+			if got, ok := e.Extra.(muc.Item); ok && x.lastItem != nil {
+				if d := x.lastItem.differs(got); d != "" {
+					x.r.Fail("user-presence-item", "item-differs:"+strings.SplitN(d, " ", 2)[0]+":"+x.lastItem.class(), x.lines(), "HandleUserPresence was given an item that differs from the one the room sent: "+d)
+				}
+			}
 		case e.Who == "cb" && e.What == "invite":
 			x.inv++
 		case strings.HasPrefix(e.What, "panic:"):
@@ -209,6 +237,29 @@ func (x *run) sample() {
 		}
 	}
 	x.trace = append(x.trace, "?"+string(b))
+	// Me() / Addr(): the occupant address the channel holds (changes only when a join under
+	// another nickname completes)
+	held := make([]string, len(x.addrs))
+	for c := range x.addrs {
+		held[c] = strconv.Itoa(x.cur[c])
+		if x.chans[c] == nil {
+			continue
+		}
+		me, bare := x.chans[c].Me(), x.chans[c].Addr()
+		got := -1
+		var room, nick int
+		if n, _ := fmt.Sscanf(me.String(), "room%d@conf.example.net/nick%d", &room, &nick); n == 2 {
+			got = room + 10*nick
+		}
+		held[c] = strconv.Itoa(got)
+		if got != x.cur[c] || !bare.Equal(occ(x.cur[c]).Bare()) {
+			x.r.Fail("membership", "me-differs-from-the-occupant-address-held", x.lines(), fmt.Sprintf("channel %d: Me()=%s Addr()=%s but the last successful join was confirmed for %s", c, me, bare, occ(x.cur[c])))
+		}
+	}
+	if h := strings.Join(held, "."); h != x.lastHeld {
+		x.lastHeld = h
+		x.trace = append(x.trace, "="+h)
+	}
 }
 
 func (x *run) joinReturned(c int, e c06.Ev) {
@@ -369,8 +420,18 @@ func (x *run) act(a string) bool {
 			x.sync()
 		}
 	case a[0] == 'A' || a[0] == 'U':
-		ad := num(1)
-		if x.blocked {
+		// A<a> / U<a>, optionally :<payload> (payload.go)
+		spec := strings.SplitN(a[1:], ":", 2)
+		ad, aerr := strconv.Atoi(spec[0])
+		if x.blocked || aerr != nil {
+			return false
+		}
+		pl := defaultPayload
+		if len(spec) == 2 {
+			pl = spec[1]
+		}
+		item, pok := parsePayload(pl)
+		if !pok {
 			return false
 		}
 		c, reg := x.managed[ad]
@@ -378,7 +439,18 @@ func (x *run) act(a string) bool {
 		if a[0] == 'U' {
 			typ = ` type="unavailable"`
 		}
-		st := fmt.Sprintf(`<presence xmlns="jabber:client" from="%s" to="me@example.net/h"%s><x xmlns="http://jabber.org/protocol/muc#user"><item affiliation="member" role="participant"/><status code="110"/></x></presence>`, occ(ad), typ)
+		st := fmt.Sprintf(`<presence xmlns="jabber:client" from="%s" to="me@example.net/h"%s>%s</presence>`, occ(ad), typ, item.xml())
+		x.lastItem = item
+		// processed: the serve loop has taken the presence and gone on (a handler that fails on a
+		// legal payload ends Serve: the presence was not processed)
+		processed := func() bool {
+			if x.syncQ() {
+				return true
+			}
+			x.r.Fail("membership", "presence-not-processed:"+map[byte]string{'A': "available", 'U': "unavailable"}[a[0]]+":"+item.class(), x.lines(),
+				fmt.Sprintf("the room's %s presence for occupant address %d with the legal muc#user payload %s was not processed%s", map[byte]string{'A': "available", 'U': "unavailable"}[a[0]], ad, item.xml(), x.served()))
+			return false
+		}
 		if a[0] == 'A' {
 			if reg && x.jst[c] != "idle" && x.jready[c] != "" {
 				return false // keep the select of the pending join deterministic
@@ -390,17 +462,22 @@ func (x *run) act(a string) bool {
 			switch {
 			case self && x.jst[c] == "insel":
 				x.jready[c] = "self"
+				if !processed() {
+					break
+				}
 				if e, ok := x.wait(isEv("j"+strconv.Itoa(c), "ret:"), "join return after self-presence"); ok {
 					x.joinReturned(c, e)
 				} else {
-					x.r.Fail("join-success-iff", "self-presence-did-not-complete-join", x.lines(), fmt.Sprintf("self-presence for occupant address %d was sent while Join of channel %d waited, the call did not return", ad, c))
+					x.r.Fail("join-success-iff", "self-presence-did-not-complete-join:"+item.class(), x.lines(), fmt.Sprintf("self-presence for occupant address %d (payload %s) was sent while Join of channel %d waited, the call did not return%s", ad, item.raw, c, x.served()))
 				}
 				x.sync()
 			case self && x.jst[c] == "parked":
 				x.jready[c] = "self"
 				x.blocked, x.blockedBy = true, "j"+strconv.Itoa(c) // the handler waits for the joiner to reach its select
 			default:
-				x.sync()
+				if !processed() {
+					break
+				}
 				x.callbacks()
 				want := 0
 				if reg {
@@ -420,7 +497,9 @@ func (x *run) act(a string) bool {
 			}
 			x.trace = append(x.trace, a)
 			x.feed(st)
-			x.sync()
+			if !processed() {
+				break
+			}
 			for cc := range x.addrs {
 				if x.cur[cc] == ad {
 					x.member[cc] = false
@@ -649,6 +728,14 @@ func (x *run) epilogue() string {
 }
 
 func runCase(r *common.Run, addrs []int, sched []string, class string) {
+	runCaseWith(r, addrs, func(x *run) {
+		for _, a := range sched {
+			x.act(a)
+		}
+	}, class)
+}
+
+func runCaseWith(r *common.Run, addrs []int, body func(x *run), class string) {
 	x, err := newRun(r, addrs)
 	if err != nil {
 		r.Notes = append(r.Notes, "session setup failed: "+err.Error())
@@ -665,9 +752,7 @@ func runCase(r *common.Run, addrs []int, sched []string, class string) {
 		x.rs.In.Close()
 		common.WithTimeout(200*time.Millisecond, func() { x.rs.S.Close() })
 	}()
-	for _, a := range sched {
-		x.act(a)
-	}
+	body(x)
 	var obs string
 	if len(x.problems) > 0 {
 		r.Hist["problem"]++
@@ -726,6 +811,19 @@ var corpus = []struct {
 	{"0", "J0,s0,A0,Zj0,L0,l0,U0,Zl0,Zj0,N,J0,s0,A0,Zl0"},
 	{"0,1", "J0,s0,A0,J1,s1,Ej1,Zj1,L0,l0,El0,Zl0,Zj0"},
 	{"0,10", "J0,s0,A0,J1,s1,A10,J0@10,J1@0,U10,U0"},     // the other nickname is taken by our own second channel
+	// round C: a channel that is NOT in the room (its join failed / was refused / it has left) shares
+	// the occupant address with one that is; its Leave is answered with an error, then the room
+	// removes the occupant: only the registration of the channel that holds the address counts
+	{"0,0", "J0,s0,Ej0,J1,s1,A0,L0,l0,El0,U0"},
+	{"0,0", "J0,s0,A0,J1,L1,l1,El1,U0"},
+	{"0,0", "J0,s0,A0,L0,l0,U0,J1,s1,A0,L0,l0,El0,A0,U0"},
+	{"0,10", "J0,s0,A0,J1,s1,A10,L1,l1,U10,J0@10,s0,A10,L1,l1,El1,U10"},
+	// round C: the room's presences with other legal muc#user payloads: ban (outcast, 301), kick
+	// (307), room destroyed, no item at all, item with actor / reason, other presence children first
+	{"0", "J0,s0,A0:on110+201,A0:mv,U0:cn301r"},
+	{"0", "J0,s0,A0:-p110x,A0:ap110s,L0,l0,U0:nn307+110r"},
+	{"0", "J0,s0,A0:mm110e,A0:--d,U0:nn110d"},
+	{"0,1", "J0,s0,A0,J1,s1,A1:cn,U1:cn301,A1:cn,U0:mn332s"},
 }
 
 func parseAddrs(s string) []int {
@@ -760,9 +858,9 @@ func randSched(rnd *common.Rand, n, length int) []string {
 		case 3:
 			out = append(out, "s"+c)
 		case 4, 5, 6, 7:
-			out = append(out, "A"+a)
+			out = append(out, "A"+a+randPayload(rnd))
 		case 8, 9, 10:
-			out = append(out, "U"+a)
+			out = append(out, "U"+a+randPayload(rnd))
 		case 11:
 			out = append(out, "Ej"+c)
 		case 12:
@@ -796,6 +894,15 @@ func randSched(rnd *common.Rand, n, length int) []string {
 		}
 	}
 	return out
+}
+
+// randPayload: mostly the plain payload, otherwise any affiliation x role x codes x flags
+func randPayload(rnd *common.Rand) string {
+	if !rnd.Chance(1, 3) {
+		return ""
+	}
+	return ":" + string([]byte{payloadAffs[rnd.Intn(len(payloadAffs))], payloadRoles[rnd.Intn(len(payloadRoles))]}) +
+		payloadCodes[rnd.Intn(len(payloadCodes))] + payloadFlags[rnd.Intn(len(payloadFlags))]
 }
 
 // replayable drops the observation tokens of a trace.
@@ -850,6 +957,14 @@ func Run(r *common.Run) error {
 		r.Notes = append(r.Notes, "race-detector run: concurrent scenario and corpus only")
 		return nil
 	}
+	// the payload dimension, enumerated: as the self-presence, as an occupant presence and as the
+	// unavailable presence that ends a pending Leave
+	pls := allPayloads()
+	for n, p := range pls {
+		r.Mark("case payload %d", n)
+		runCase(r, []int{0}, []string{"J0", "s0", "A0:" + p, "A0:" + p, "L0", "l0", "U0:" + p}, "payload")
+	}
+	nC := runContention(r)
 	nR := r.Pick(1200, 20000)
 	for n := 0; n < nR && len(r.Failures) < 80 && r.Hist["problem"] < 25; n++ {
 		r.Mark("case random %d", n)
@@ -863,6 +978,6 @@ func Run(r *common.Run) error {
 		}
 		runCase(r, addrs, randSched(r.Rnd, k, 6+r.Rnd.Intn(30)), "random")
 	}
-	r.Notes = append(r.Notes, fmt.Sprintf("histories: %d corpus + %d random (1-3 channels, distinct occupant addresses, presences also for an address nobody joined)", len(corpus), nR))
+	r.Notes = append(r.Notes, fmt.Sprintf("histories: %d corpus + %d payloads (affiliation x role x status codes x item shapes) + %d contention (macro operations on channels sharing an occupant address / swapping nicknames, exhaustive) + %d random (1-3 channels, presences also for an address nobody joined, random payloads)", len(corpus), len(pls), nC, nR))
 	return nil
 }
